@@ -105,7 +105,9 @@ func (state *inflate) setupDynamicHeader() error {
 		return errInvalidBlock
 	}
 
-	state.distTable.genForDists(ctx.litAndDistHuff[litLen:distLen+litLen], ctx.distCount[:], distLen)
+	if !state.distTable.genForDists(ctx.litAndDistHuff[litLen:distLen+litLen], ctx.distCount[:], distLen) {
+		return errInvalidBlock
+	}
 	err = ctx.setAndExpandLitLenHuffCode()
 	if err != nil {
 		return err
@@ -519,7 +521,10 @@ const (
 	distSymLenOffset   = smallShortCodeLenOffset
 )
 
-func (t *smallHuffCodeTable) genForDists(codes []huffCode, count []uint16, maxSymbol uint32) {
+// genForDists reports false if the code does not fit the lookup tables: only an
+// incomplete code with many long codewords can need more long-code entries
+// than a complete code ever does.
+func (t *smallHuffCodeTable) genForDists(codes []huffCode, count []uint16, maxSymbol uint32) bool {
 	var countTotal, countTotalTmp [17]uint32
 	// entries of codes that this block does not assign must decode to
 	// "invalid", not to whatever the previous block left in the table
@@ -532,7 +537,7 @@ func (t *smallHuffCodeTable) genForDists(codes []huffCode, count []uint16, maxSy
 
 	codeListLen := countTotal[16]
 	if codeListLen == 0 {
-		return
+		return true
 	}
 	var codeList [distLen + 2]uint32 /* The +2 is for the extra codes in the static header */
 	for i, code := range codes {
@@ -591,6 +596,9 @@ func (t *smallHuffCodeTable) genForDists(codes []huffCode, count []uint16, maxSy
 				tempCodeLength++
 			}
 		}
+		if longCodeLookupLength+2*(1<<(maxLength-distLookupBits)) > uint32(len(t.LongCodeLookup)) {
+			return false
+		}
 		for x := longCodeLookupLength; x < longCodeLookupLength+2*(1<<(maxLength-distLookupBits)); x++ {
 			t.LongCodeLookup[x] = 0
 		}
@@ -615,4 +623,5 @@ func (t *smallHuffCodeTable) genForDists(codes []huffCode, count []uint16, maxSy
 			(maxLength << smallShortCodeLenOffset) | smallFlagBit)
 		longCodeLookupLength += 1 << (maxLength - distLookupBits)
 	}
+	return true
 }
